@@ -383,7 +383,7 @@ Proof.
   { unfold eo2, eo1, clampz. destruct (Z.ltb_spec eo 0); [destruct (Z.ltb_spec el 0)|destruct (Z.ltb_spec el eo)]; lia. }
   destruct ((ed <? sd) && (negb (sd =? ed + 1) || negb (so2 =? 0) || negb (eo2 =? 0))) eqn:C1; [discriminate|].
   destruct ((sd =? ed) && (sl <? so2 + eo2)) eqn:C2; [discriminate|].
-  destruct ((sd =? ed - 1) && (so2 =? el) && (eo2 =? el) || (sd =? ed) && (so2 + eo2 =? sl)) eqn:C3; [discriminate|].
+  destruct ((sd =? ed - 1) && (so2 =? sl) && (eo2 =? el) || (sd =? ed) && (so2 + eo2 =? sl)) eqn:C3; [discriminate|].
   intros H. inversion H; subst so' eo' ie. split; [assumption|]. split; [assumption|].
   apply orb_false_iff in C3. destruct C3 as [_ C3].
   split.
@@ -409,95 +409,62 @@ Proof.
   rewrite N.mod_add by lia. apply N.mod_small. lia.
 Qed.
 
-(* Delete with the linear resolvers keeps the index well formed and within the files,
-   whatever the bounds (inverted, in gaps, inside one domain, across many). *)
-Lemma delete_lin_inv fs ps a b :
-  idx_ok ps -> Forall (ptr_in_files fs) ps -> Forall file_small fs ->
-  ts_in_range a -> ts_in_range b ->
-  idx_ok (fst (delete lin_resolver lin_resolver ps a b)) /\
-  Forall (ptr_in_files fs) (fst (delete lin_resolver lin_resolver ps a b)).
+(* what the start stage delivers (linear resolver) *)
+Lemma delete_start_spec ps a sd s so a' :
+  idx_ok ps -> ts_in_range a ->
+  delete_start lin_resolver ps a = inl (Some (sd, s, so, a')) ->
+  getp ps sd = Some s /\ ts_in_range a' /\
+  (0 < so -> p_start s < a' /\ a' <= p_end s /\ so = a' - p_start s /\ a' = a /\ a < p_end s) /\
+  (so <= 0 -> so = 0) /\ p_start s <= a'.
 Proof.
-  intros Hok Hpf Hsm Ha Hb. unfold delete.
-  destruct (usearch ps (ts_span_range a 0)) as [sd0 exs] eqn:Eus.
-  (* normalise the start part *)
-  assert (Hstart :
-    (exists sd s so a', (if exs then
-        match getp ps sd0 with
-        | Some s => match lin_resolver (p_start s) a with
-                    | Some (so, a') => inl (Some (sd0, s, so, a')) | None => inr (RErr EOther) end
-        | None => inr (RErr EOther) end
-      else let sd := sd0 + 1 in
-        if sd =? zlen ps then inl None
-        else match getp ps sd with Some s => inl (Some (sd, s, 0, p_start s)) | None => inr (RErr EOther) end)
-       = (inl (Some (sd, s, so, a')) : option (Z * pointer * Z * Z) + res) /\
-      getp ps sd = Some s /\ ts_in_range a' /\
-      (0 < so -> p_start s < a' /\ a' <= p_end s /\ so = a' - p_start s /\ a' = a /\ a < p_end s) /\
-      (so <= 0 -> so = 0) /\ p_start s <= a' /\ (exs = false -> a < p_start s)) \/
-    (exists r, (if exs then
-        match getp ps sd0 with
-        | Some s => match lin_resolver (p_start s) a with
-                    | Some (so, a') => inl (Some (sd0, s, so, a')) | None => inr (RErr EOther) end
-        | None => inr (RErr EOther) end
-      else let sd := sd0 + 1 in
-        if sd =? zlen ps then inl None
-        else match getp ps sd with Some s => inl (Some (sd, s, 0, p_start s)) | None => inr (RErr EOther) end)
-       = (r : option (Z * pointer * Z * Z) + res) /\ (r = inl None \/ exists x, r = inr x))).
-  { destruct exs.
-    - destruct (usearch_point_exact _ _ _ Hok Ha Eus) as (s & Hg & Hr). rewrite Hg. simpl.
-      left. exists sd0, s, (a - p_start s), a. split; [reflexivity|]. split; [assumption|]. split; [assumption|].
-      repeat split; try lia; try discriminate.
-    - destruct (usearch_point_inexact _ _ _ Hok Ha Eus) as (Hi & HL & HR). simpl.
-      destruct (Z.eqb_spec (sd0 + 1) (zlen ps)); [right; eexists; split; [reflexivity|auto]|].
-      destruct (getp_lookup ps (sd0 + 1)) as [s Hg]; [lia|]. rewrite Hg.
-      left. exists (sd0 + 1), s, 0, (p_start s). split; [reflexivity|]. split; [assumption|].
-      pose proof (idx_ok_wf _ _ _ Hok Hg) as [[Hr _] Hlt].
-      split; [exact Hr|]. repeat split; try lia. intros _. apply (HR (sd0 + 1) s Hg). lia. }
-  destruct Hstart as [(sd & s & so & a' & -> & Hgs & Ha' & Hso_pos & Hso_np & Hsa' & Hinex_s)|(r & -> & [->|[x ->]])];
-    [|simpl; auto|simpl; auto].
-  destruct (usearch ps (ts_span_range b 0)) as [ed0 exe] eqn:Eue.
-  assert (Hend :
-    (exists ed e eo b', (if exe then
-        match getp ps ed0 with
-        | Some e => match lin_resolver (p_start e) b with
-                    | Some (eo, b') => inl (Some (ed0, e, Z.of_N (p_size e) - eo, b')) | None => inr (RErr EOther) end
-        | None => inr (RErr EOther) end
-      else if ed0 =? -1 then inl None
-        else match getp ps ed0 with Some e => inl (Some (ed0, e, 0, p_end e)) | None => inr (RErr EOther) end)
-       = (inl (Some (ed, e, eo, b')) : option (Z * pointer * Z * Z) + res) /\
-      getp ps ed = Some e /\ ts_in_range b' /\
-      (0 < eo -> p_start e <= b' /\ b' < p_end e /\ eo = Z.of_N (p_size e) - (b' - p_start e) /\ b' = b) /\
-      b' <= p_end e /\ (exe = false -> p_end e <= b /\ eo = 0)) \/
-    (exists r, (if exe then
-        match getp ps ed0 with
-        | Some e => match lin_resolver (p_start e) b with
-                    | Some (eo, b') => inl (Some (ed0, e, Z.of_N (p_size e) - eo, b')) | None => inr (RErr EOther) end
-        | None => inr (RErr EOther) end
-      else if ed0 =? -1 then inl None
-        else match getp ps ed0 with Some e => inl (Some (ed0, e, 0, p_end e)) | None => inr (RErr EOther) end)
-       = (r : option (Z * pointer * Z * Z) + res) /\ (r = inl None \/ exists x, r = inr x))).
-  { destruct exe.
-    - destruct (usearch_point_exact _ _ _ Hok Hb Eue) as (e & Hg & Hr). rewrite Hg. simpl.
-      left. exists ed0, e, (Z.of_N (p_size e) - (b - p_start e)), b. split; [reflexivity|]. split; [assumption|].
-      split; [assumption|]. repeat split; try lia; try discriminate.
-    - destruct (usearch_point_inexact _ _ _ Hok Hb Eue) as (Hi & HL & HR).
-      destruct (Z.eqb_spec ed0 (-1)); [right; eexists; split; [reflexivity|auto]|].
-      destruct (getp_lookup ps ed0) as [e Hg]; [lia|]. rewrite Hg.
-      left. exists ed0, e, 0, (p_end e). split; [reflexivity|]. split; [assumption|].
-      pose proof (idx_ok_wf _ _ _ Hok Hg) as [[_ Hr] Hlt].
-      split; [exact Hr|]. repeat split; try lia. apply (HL ed0 e Hg). lia. }
-  destruct Hend as [(ed & e & eo & b' & -> & Hge & Hb' & Heo_pos & Heb' & Hinex_e)|(r & -> & [->|[x ->]])];
-    [|simpl; auto|simpl; auto].
+  intros Hok Ha. unfold delete_start.
+  destruct (usearch ps (ts_span_range a 0)) as [sd0 [|]] eqn:Eus.
+  - destruct (usearch_point_exact _ _ _ Hok Ha Eus) as (s0 & Hg & Hr). rewrite Hg. simpl.
+    intros H. inversion H; subst. split; [assumption|]. split; [assumption|]. repeat split; lia.
+  - destruct (usearch_point_inexact _ _ _ Hok Ha Eus) as (Hi & HL & HR). simpl.
+    destruct (Z.eqb_spec (sd0 + 1) (zlen ps)); [discriminate|].
+    destruct (getp_lookup ps (sd0 + 1)) as [s0 Hg]; [lia|]. rewrite Hg.
+    intros H. inversion H; subst. split; [assumption|].
+    pose proof (idx_ok_wf _ _ _ Hok Hg) as [[Hr _] Hlt]. split; [exact Hr|]. repeat split; lia.
+Qed.
+
+Lemma delete_end_spec ps b ed e eo b' :
+  idx_ok ps -> ts_in_range b ->
+  delete_end lin_resolver ps b = inl (Some (ed, e, eo, b')) ->
+  getp ps ed = Some e /\ ts_in_range b' /\
+  (0 < eo -> p_start e <= b' /\ b' < p_end e /\ eo = Z.of_N (p_size e) - (b' - p_start e) /\ b' = b) /\
+  b' <= p_end e.
+Proof.
+  intros Hok Hb. unfold delete_end.
+  destruct (usearch ps (ts_span_range b 0)) as [ed0 [|]] eqn:Eue.
+  - destruct (usearch_point_exact _ _ _ Hok Hb Eue) as (e0 & Hg & Hr). rewrite Hg. simpl.
+    intros H. inversion H; subst. split; [assumption|]. split; [assumption|]. repeat split; lia.
+  - destruct (usearch_point_inexact _ _ _ Hok Hb Eue) as (Hi & HL & HR).
+    destruct (Z.eqb_spec ed0 (-1)); [discriminate|].
+    destruct (getp_lookup ps ed0) as [e0 Hg]; [lia|]. rewrite Hg.
+    intros H. inversion H; subst. split; [assumption|].
+    pose proof (idx_ok_wf _ _ _ Hok Hg) as [[_ Hr] Hlt]. split; [exact Hr|]. repeat split; lia.
+Qed.
+
+Lemma delete_apply_inv fs ps sd s so a' ed e eo b' :
+  idx_ok ps -> Forall (ptr_in_files fs) ps -> Forall file_small fs ->
+  getp ps sd = Some s -> ts_in_range a' ->
+  (0 < so -> p_start s < a' /\ a' <= p_end s /\ so = a' - p_start s) ->
+  getp ps ed = Some e -> ts_in_range b' ->
+  (0 < eo -> p_start e <= b' /\ b' < p_end e /\ eo = Z.of_N (p_size e) - (b' - p_start e)) ->
+  idx_ok (fst (delete_apply ps sd s so a' ed e eo b')) /\
+  Forall (ptr_in_files fs) (fst (delete_apply ps sd s so a' ed e eo b')).
+Proof.
+  intros Hok Hpf Hsm Hgs Ha' Hso_pos Hge Hb' Heo_pos. unfold delete_apply.
   destruct (validate_delete ps sd ed so eo) as [[[ok ie] so'] eo'] eqn:Ev.
   destruct ok; [|simpl; auto]. simpl.
   destruct (validate_delete_true _ _ _ _ _ _ _ _ _ _ Hgs Hge Ev) as (Hso' & Heo' & Hord & Hsame).
   pose proof (getp_Some _ _ _ Hgs) as Hsdr. pose proof (getp_Some _ _ _ Hge) as Hedr.
   pose proof (idx_ok_wf _ _ _ Hok Hgs) as [[Hsr1 Hsr2] Hslt].
   pose proof (idx_ok_wf _ _ _ Hok Hge) as [[Her1 Her2] Helt].
-  (* the list is a splice of ps *)
   assert (Hlen1 : length (firstn (Z.to_nat sd) ps) = Z.to_nat sd).
   { rewrite firstn_length. unfold zlen in *. lia. }
   rewrite (firstn_app_exact _ _ _ Hlen1), (skipn_app_exact _ _ _ Hlen1).
-  (* facts about pointers in files *)
   rewrite Forall_forall in Hpf.
   pose proof (Hpf s (getp_In _ _ _ Hgs)) as (fS & HfS & HbS & HzS).
   pose proof (Hpf e (getp_In _ _ _ Hge)) as (fE & HfE & HbE & HzE).
@@ -520,43 +487,45 @@ Proof.
                     Forall (ptr_in_files fs) (new_s ++ new_e)).
   { assert (HS : so' <> 0 -> ptr_wf (mkPtr (mkTR (p_start s) a') (p_file s) (p_off s) (u32z so')) /\
                  ptr_in_files fs (mkPtr (mkTR (p_start s) a') (p_file s) (p_off s) (u32z so')) /\ 0 < so).
-    { intros Hnz. assert (0 < so) by lia. destruct (Hso_pos H) as (? & ? & ? & ? & ?).
-      split; [split; [split; assumption|simpl; unfold p_start, p_end; simpl; lia]|]. split; [|assumption].
+    { intros Hnz. assert (H : 0 < so) by lia. destruct (Hso_pos H) as (? & ? & ?).
+      split; [split; [split; assumption|unfold p_start, p_end in *; simpl; lia]|]. split; [|assumption].
       exists fS. simpl. split; [assumption|]. rewrite u32z_small by lia. lia. }
     assert (HE : eo' <> 0 -> ptr_wf (mkPtr (mkTR b' (p_end e)) (p_file e) (u32_sub (u32 (p_off e + p_size e)) (u32z eo')) (u32z eo')) /\
                  ptr_in_files fs (mkPtr (mkTR b' (p_end e)) (p_file e) (u32_sub (u32 (p_off e + p_size e)) (u32z eo')) (u32z eo')) /\ 0 < eo).
-    { intros Hnz. assert (0 < eo) by lia. destruct (Heo_pos H) as (? & ? & ? & ?).
-      split; [split; [split; assumption|simpl; unfold p_start, p_end; simpl; lia]|]. split; [|assumption].
+    { intros Hnz. assert (H : 0 < eo) by lia. destruct (Heo_pos H) as (? & ? & ?).
+      split; [split; [split; assumption|unfold p_start, p_end in *; simpl; lia]|]. split; [|assumption].
       exists fE. simpl. split; [assumption|]. rewrite u32z_small by lia. rewrite u32_small by lia.
       rewrite u32_sub_small by lia. lia. }
     assert (Hab : so' <> 0 -> eo' <> 0 -> a' <= b').
     { intros H1 H2. destruct (HS H1) as (_ & _ & Hp1). destruct (HE H2) as (_ & _ & Hp2).
-      destruct (Hso_pos Hp1) as (? & ? & ? & ? & ?). destruct (Heo_pos Hp2) as (? & ? & ? & ?).
+      destruct (Hso_pos Hp1) as (? & ? & ?). destruct (Heo_pos Hp2) as (? & ? & ?).
       destruct Hord as [Hle|(? & ? & ?)]; [|lia].
       destruct (Z.eq_dec sd ed) as [Heq|Hne].
       - specialize (Hsame Heq). subst ed. rewrite Hgs in Hge. inversion Hge; subst e. lia.
       - pose proof (idx_ok_lookup_lt _ Hok sd ed s e Hgs Hge ltac:(lia)). lia. }
-    assert (Hle_needed : so' <> 0 \/ eo' <> 0 -> sd <= ed) by (destruct Hord as [?|(? & ? & ?)]; lia).
     unfold new_s, new_e.
     destruct (Z.eqb_spec so' 0) as [Hs0|Hs0]; destruct (Z.eqb_spec eo' 0) as [He0|He0]; simpl.
     - split; [apply idx_ok_nil|]. split; [intros ? []|constructor].
-    - destruct (HE He0) as (Hw & Hf & _). split; [|split].
+    - destruct (HE He0) as (Hw & Hf & Hp). split; [|split].
       + apply idx_ok_cons. split; [assumption|]. split; [apply idx_ok_nil|intros ? []].
-      + intros m [<-|[]]. destruct (Heo_pos ltac:(lia)) as (? & ? & ? & ?).
-        specialize (Hse_le ltac:(lia)). unfold p_start, p_end in *. simpl. lia.
+      + intros m [<-|[]]. destruct (Heo_pos Hp) as (? & ? & ?).
+        assert (Hle : sd <= ed) by (destruct Hord as [?|(? & ? & ?)]; lia).
+        specialize (Hse_le Hle). unfold p_start, p_end in *. simpl. lia.
       + constructor; [assumption|constructor].
-    - destruct (HS Hs0) as (Hw & Hf & _). split; [|split].
+    - destruct (HS Hs0) as (Hw & Hf & Hp). split; [|split].
       + apply idx_ok_cons. split; [assumption|]. split; [apply idx_ok_nil|intros ? []].
-      + intros m [<-|[]]. destruct (Hso_pos ltac:(lia)) as (? & ? & ? & ? & ?).
-        specialize (Hse_le ltac:(lia)). unfold p_start, p_end in *. simpl. lia.
+      + intros m [<-|[]]. destruct (Hso_pos Hp) as (? & ? & ?).
+        assert (Hle : sd <= ed) by (destruct Hord as [?|(? & ? & ?)]; lia).
+        specialize (Hse_le Hle). unfold p_start, p_end in *. simpl. lia.
       + constructor; [assumption|constructor].
-    - destruct (HS Hs0) as (Hw1 & Hf1 & _). destruct (HE He0) as (Hw2 & Hf2 & _).
+    - destruct (HS Hs0) as (Hw1 & Hf1 & Hp1). destruct (HE He0) as (Hw2 & Hf2 & Hp2).
       specialize (Hab Hs0 He0). split; [|split].
       + apply idx_ok_cons. split; [assumption|]. split.
         * apply idx_ok_cons. split; [assumption|]. split; [apply idx_ok_nil|intros ? []].
         * intros x [<-|[]]. unfold before, p_start, p_end. simpl. assumption.
-      + destruct (Hso_pos ltac:(lia)) as (? & ? & ? & ? & ?). destruct (Heo_pos ltac:(lia)) as (? & ? & ? & ?).
-        specialize (Hse_le ltac:(lia)).
+      + destruct (Hso_pos Hp1) as (? & ? & ?). destruct (Heo_pos Hp2) as (? & ? & ?).
+        assert (Hle : sd <= ed) by (destruct Hord as [?|(? & ? & ?)]; lia).
+        specialize (Hse_le Hle).
         intros m [<-|[<-|[]]]; unfold p_start, p_end in *; simpl; lia.
       + constructor; [assumption|]. constructor; [assumption|constructor]. }
   destruct Hmid_ok as (Hmid & Hbounds & Hmidf).
@@ -574,4 +543,312 @@ Proof.
     + apply Hpf. eapply In_firstn; eauto.
     + apply in_app_or in Hx. destruct Hx as [Hx|Hx]; [apply Hmidf; assumption|].
       apply Hpf. eapply In_skipn; eauto.
+Qed.
+
+(* Delete with the linear resolvers keeps the index well formed and within the files,
+   whatever the bounds (inverted, in gaps, inside one domain, across many). *)
+Lemma delete_lin_inv fs ps a b :
+  idx_ok ps -> Forall (ptr_in_files fs) ps -> Forall file_small fs ->
+  ts_in_range a -> ts_in_range b ->
+  idx_ok (fst (delete lin_resolver lin_resolver ps a b)) /\
+  Forall (ptr_in_files fs) (fst (delete lin_resolver lin_resolver ps a b)).
+Proof.
+  intros Hok Hpf Hsm Ha Hb. unfold delete.
+  destruct (delete_start lin_resolver ps a) as [[[[[sd s] so] a']|]|r] eqn:Es; [|simpl; auto|simpl; auto].
+  destruct (delete_start_spec _ _ _ _ _ _ Hok Ha Es) as (Hgs & Ha' & Hso & _ & _).
+  destruct (delete_end lin_resolver ps b) as [[[[[ed e] eo] b']|]|r] eqn:Ee; [|simpl; auto|simpl; auto].
+  destruct (delete_end_spec _ _ _ _ _ _ Hok Hb Ee) as (Hge & Hb' & Heo & _).
+  apply delete_apply_inv; try assumption.
+  - intros H. destruct (Hso H) as (? & ? & ? & _). auto.
+  - intros H. destruct (Heo H) as (? & ? & ? & _). auto.
+Qed.
+
+(* ------------------------------------------------------------------ every step, every history *)
+Lemma step_inv st o : Inv st -> legal st o -> Inv (fst (step st o)).
+Proof.
+  intros HI Hl. destruct o as [w s e k|w d|w e k|w|a b]; simpl.
+  - destruct Hl as [[Hs He] _]. apply open_inv; assumption.
+  - apply write_inv; assumption.
+  - destruct Hl as [He _]. apply commit_inv; assumption.
+  - apply close_inv; assumption.
+  - destruct Hl as [[Ha Hb] _]. destruct HI as (Hidx & Hpf & Hfo & Hfs & Hw).
+    pose proof (delete_lin_inv (d_files st) (d_ptrs st) a b Hidx Hpf Hfs Ha Hb) as [H1 H2].
+    destruct (delete lin_resolver lin_resolver (d_ptrs st) a b) as [ps' r]. simpl in *.
+    split; [assumption|]. split; [assumption|]. split; [assumption|]. split; assumption.
+Qed.
+
+Theorem run_inv : forall ops st, Inv st -> legal_run st ops -> Inv (run st ops).
+Proof.
+  induction ops as [|o rest IH]; intros st HI Hl; simpl; [assumption|].
+  destruct Hl as [Hl Hrest]. apply IH; [apply step_inv; assumption|assumption].
+Qed.
+
+(* every intermediate state of a history *)
+Lemma trace_inv : forall ops st, Inv st -> legal_run st ops -> Forall (fun sr => Inv (fst sr)) (trace st ops).
+Proof.
+  induction ops as [|o rest IH]; intros st HI Hl; simpl; [constructor|].
+  destruct Hl as [Hl Hrest]. constructor; [apply step_inv; assumption|].
+  apply IH; [apply step_inv; assumption|assumption].
+Qed.
+
+(* ------------------------------------------------------------------ clean failure *)
+Lemma with_ptrs_id st : with_ptrs st (d_ptrs st) = st.
+Proof. destruct st; reflexivity. Qed.
+
+(* An operation that returns an error (or addresses a non-existent writer) changes nothing
+   at all: pointers, files, writers. *)
+Lemma step_fail_unchanged st o st' r : step st o = (st', r) -> r <> ROk -> st' = st.
+Proof.
+  destruct o as [w s e k|w d|w e k|w|a b]; simpl.
+  - unfold open_writer. destruct (d_writers st !! w); [intros H; inversion H; auto|].
+    destruct (negb (cfg_validate s e)); [intros H; inversion H; auto|].
+    destruct (idx_overlap _ _); [intros H; inversion H; auto|].
+    destruct (acquire _ _ _) as [[? ?] ?]. intros H; inversion H; subst. congruence.
+  - unfold write. destruct (d_writers st !! w) as [wr|]; [|intros H; inversion H; auto].
+    destruct (w_closed wr); [intros H; inversion H; auto|].
+    destruct (get_file _ _); intros H; inversion H; subst; auto. congruence.
+  - unfold commit. destruct (d_writers st !! w) as [wr|]; [|intros H; inversion H; auto].
+    destruct (w_closed wr); [intros H; inversion H; auto|].
+    destruct (w_preset wr && _); [intros H; inversion H; auto|].
+    destruct (get_file _ _) as [f|]; [|intros H; inversion H; auto].
+    destruct (f_len f =? 0)%N; [intros H; inversion H; auto|].
+    destruct (resolve_commit_end _ _ _) as [ce sw].
+    destruct (negb (validate_commit_range wr ce sw)); [intros H; inversion H; auto|].
+    destruct (if ts_is_zero (w_prev wr) then _ else _) as [ps'|err]; [|intros H; inversion H; auto].
+    destruct sw.
+    + destruct (acquire _ _ _) as [[? ?] ?]. intros H; inversion H; subst. congruence.
+    + intros H; inversion H; subst. congruence.
+  - unfold close_writer. destruct (d_writers st !! w) as [wr|]; [|intros H; inversion H; auto].
+    destruct (w_closed wr); intros H; inversion H; subst; auto; congruence.
+  - destruct (delete lin_resolver lin_resolver (d_ptrs st) a b) as [ps' r'] eqn:Ed.
+    intros H Hr. inversion H; subst. clear H.
+    assert (ps' = d_ptrs st); [|subst; apply with_ptrs_id].
+    unfold delete in Ed.
+    destruct (delete_start _ _ _) as [[[[[sd s] so] a']|]|r0]; [|inversion Ed; auto|inversion Ed; auto].
+    destruct (delete_end _ _ _) as [[[[[ed e] eo] b']|]|r0]; [|inversion Ed; auto|inversion Ed; auto].
+    unfold delete_apply in Ed. destruct (validate_delete _ _ _ _ _) as [[[ok ie] so'] eo'].
+    destruct ok; simpl in Ed; inversion Ed; subst; auto. congruence.
+Qed.
+
+(* ------------------------------------------------------------------ the iterator sees everything *)
+Lemma iter_from_all bounds : forall ps pre,
+  (forall p, In p ps -> overlaps_with (p_tr p) bounds = true) ->
+  forall fuel, (length ps < fuel)%nat ->
+  iter_from fuel (pre ++ ps) bounds (zlen pre) = ps.
+Proof.
+  induction ps as [|x l IH]; intros pre Hov fuel Hf.
+  - destruct fuel; [reflexivity|]. simpl. pose proof (zlen_nonneg pre).
+    destruct (Z.eqb_spec (zlen pre) (-1)); [lia|]. rewrite app_nil_r.
+    destruct (getp pre (zlen pre)) eqn:E; [apply getp_Some in E; lia|reflexivity].
+  - destruct fuel; [simpl in Hf; lia|]. simpl. pose proof (zlen_nonneg pre).
+    destruct (Z.eqb_spec (zlen pre) (-1)); [lia|].
+    rewrite getp_app_r by lia. replace (zlen pre - zlen pre) with 0 by lia. rewrite getp_cons_0.
+    rewrite (Hov x (or_introl eq_refl)). f_equal.
+    replace (pre ++ x :: l) with ((pre ++ [x]) ++ l) by (rewrite <- app_assoc; reflexivity).
+    replace (zlen pre + 1) with (zlen (pre ++ [x])) by (rewrite zlen_app; unfold zlen; simpl; lia).
+    apply IH; [intros p Hp; apply Hov; right; assumption|simpl in Hf; lia].
+Qed.
+
+(* On a well-formed index the enumeration through an iterator over TimeRangeMax returns
+   every pointer, in order: everything committed is readable. *)
+Lemma iter_all_complete ps : idx_ok ps -> iter_all ps tr_max = ps.
+Proof.
+  intros Hok. unfold iter_all.
+  assert (Hge : search_ge ps (tr_start tr_max) = 0).
+  { unfold search_ge. simpl tr_start.
+    assert (H0 : ts_in_range ts_min) by (unfold ts_in_range, ts_min, ts_max; lia).
+    destruct (usearch ps (ts_span_range ts_min 0)) as [i [|]] eqn:Eu.
+    - destruct (usearch_point_exact _ _ _ Hok H0 Eu) as (s & Hg & Hr).
+      pose proof (idx_ok_wf _ _ _ Hok Hg) as [[[Hs0 _] _] Hlt]. pose proof (getp_Some _ _ _ Hg) as Hi.
+      destruct (Z.eq_dec i 0); [assumption|]. exfalso.
+      destruct (getp_lookup ps 0) as [f Hf]; [lia|].
+      pose proof (idx_ok_lookup_lt _ Hok 0 i f s Hf Hg ltac:(lia)).
+      pose proof (idx_ok_wf _ _ _ Hok Hf) as [[[Hf0 _] _] Hflt]. unfold p_start, p_end, ts_min in *. lia.
+    - destruct (usearch_point_inexact _ _ _ Hok H0 Eu) as (Hi & HL & _).
+      assert (i = -1).
+      { destruct (Z.eq_dec i (-1)); [assumption|]. exfalso.
+        destruct (getp_lookup ps i) as [f Hf]; [lia|]. pose proof (HL i f Hf ltac:(lia)).
+        pose proof (idx_ok_wf _ _ _ Hok Hf) as [[[Hf0 _] _] Hflt]. unfold p_start, p_end, ts_min in *. lia. }
+      subst i. pose proof (zlen_nonneg ps). destruct (Z.eqb_spec (-1) (zlen ps)); lia. }
+  rewrite Hge. apply (iter_from_all tr_max ps []); [|lia].
+  intros p Hp. destruct (In_getp _ _ Hp) as [j Hj]. pose proof (idx_ok_wf _ _ _ Hok Hj) as [[[? ?] [? ?]] Hlt].
+  apply overlaps_with_spec.
+  - split; split; assumption.
+  - unfold tr_max, tr_in_range, ts_in_range, ts_min, ts_max; simpl; lia.
+  - unfold p_start, p_end in *. lia.
+  - simpl. unfold ts_min, ts_max. lia.
+  - unfold overlaps_math, p_start, p_end in *. simpl. unfold ts_min, ts_max in *. right. lia.
+Qed.
+
+Lemma readable_all st : Inv st ->
+  readable st = map (fun p => (p_tr p, p_size p, content (d_files st) p)) (d_ptrs st).
+Proof. intros (Hok & _). unfold readable. rewrite iter_all_complete by assumption. reflexivity. Qed.
+
+(* ------------------------------------------------------------------ conflicting opens *)
+(* A writer whose start lies inside existing data is refused, whatever end it presets:
+   an inverted preset end is rejected by WriterConfig.Validate, everything else by the
+   overlap search.  Nothing changes. *)
+Lemma open_inside_fails st w s e k p :
+  Inv st -> ts_in_range s -> ts_in_range e -> d_writers st !! w = None ->
+  In p (d_ptrs st) -> contains_stamp (p_tr p) s = true ->
+  step st (Open w s e k) = (st, RErr (if cfg_validate s e then EConflict else EOther)).
+Proof.
+  intros (Hok & _) Hs He Hw Hin Hc. simpl. unfold open_writer. rewrite Hw.
+  destruct (cfg_validate s e) eqn:Ev; [simpl|reflexivity].
+  apply contains_stamp_spec in Hc.
+  destruct (In_getp _ _ Hin) as [j Hj]. pose proof (idx_ok_wf _ _ _ Hok Hj) as [Hpr Hplt].
+  unfold p_start, p_end in *.
+  assert (Hdom : exists d, cfg_domain s e = d /\ tr_in_range d /\ tr_start d = s /\ s <= tr_end d).
+  { unfold cfg_domain. destruct (ts_is_zero e) eqn:Ez.
+    - rewrite span_range0 by assumption. eexists; split; [reflexivity|]. simpl. repeat split; try apply Hs; lia.
+    - eexists; split; [reflexivity|]. simpl. unfold cfg_validate in Ev. rewrite Ez in Ev. simpl in Ev.
+      apply negb_true_iff, Z.ltb_ge in Ev. repeat split; try apply Hs; try apply He; lia. }
+  destruct Hdom as (d & -> & Hdr & Hds & Hde).
+  assert (Hov : idx_overlap (d_ptrs st) d = true).
+  { unfold idx_overlap. apply (usearch_finds _ _ p); try assumption; [lia|].
+    apply overlaps_with_spec; try assumption; [lia|lia|]. unfold overlaps_math. lia. }
+  rewrite Hov. reflexivity.
+Qed.
+
+(* ------------------------------------------------------------------ conflicting commits *)
+Section commit_facts.
+  Variables (st : db) (w : N) (wr : writer) (f : file) (e : Z) (k : N) (ce : Z) (sw : bool).
+  Hypothesis Hw : d_writers st !! w = Some wr.
+  Hypothesis Hopen : w_closed wr = false.
+  Hypothesis Hbound : w_preset wr && (w_end wr <? e) = false.
+  Hypothesis Hf : get_file (d_files st) (w_file wr) = Some f.
+  Hypothesis Hdata : f_len f <> 0%N.
+  Hypothesis Hres : resolve_commit_end (d_cap st) wr e = (ce, sw).
+
+  Lemma commit_unfold :
+    commit st w e k =
+    if negb (validate_commit_range wr ce sw) then (st, RErr EValidation)
+    else
+      let ptr := mkPtr (mkTR (w_start wr) ce) (w_file wr) (u32 (f_off f)) (u32 (f_len f)) in
+      match (if ts_is_zero (w_prev wr) then insert (d_ptrs st) ptr else update (d_ptrs st) ptr) with
+      | inr err => (st, RErr err)
+      | inl ps' =>
+          if sw then
+            let fs1 := release (d_files st) (w_file wr) in
+            let '(k', size, fs2) := acquire (d_nominal st) fs1 k in
+            (with_writer (with_files (with_ptrs st ps') fs2) w
+               (mkW ce (w_end wr) (w_preset wr) 0 k' size false), ROk)
+          else
+            (with_writer (with_ptrs st ps') w
+               (mkW (w_start wr) (w_end wr) (w_preset wr) ce (w_file wr) (w_fsize wr) false), ROk)
+      end.
+  Proof.
+    unfold commit. rewrite Hw, Hopen, Hbound, Hf.
+    destruct (N.eqb_spec (f_len f) 0); [contradiction|]. rewrite Hres. reflexivity.
+  Qed.
+
+  (* a commit that moves backwards is refused with a validation error (the one exception,
+     by design: a preset-end writer switching files commits the given stamp) *)
+  Lemma commit_backwards_fails :
+    w_prev wr <> 0 -> sw && w_preset wr = false -> ce < w_prev wr ->
+    commit st w e k = (st, RErr EValidation).
+  Proof.
+    intros Hp Hsp Hlt. rewrite commit_unfold. unfold validate_commit_range.
+    unfold ts_is_zero, ts_min. destruct (Z.eqb_spec (w_prev wr) 0); [contradiction|]. rewrite Hsp.
+    destruct (Z.ltb_spec ce (w_prev wr)); [reflexivity|lia].
+  Qed.
+
+  (* a commit that does not end after the writer's start is refused *)
+  Lemma commit_not_after_start_fails :
+    ce <= w_start wr -> commit st w e k = (st, RErr EValidation).
+  Proof.
+    intros Hle. rewrite commit_unfold. unfold validate_commit_range.
+    destruct (negb (ts_is_zero (w_prev wr)) && negb (sw && w_preset wr) && (ce <? w_prev wr)); [reflexivity|].
+    destruct (Z.ltb_spec (w_start wr) ce); [lia|reflexivity].
+  Qed.
+
+  (* a commit whose range overlaps another domain is refused with a validation-class error
+     and changes nothing.  [q] is any stored pointer other than the writer's own one (the
+     pointer with the writer's start, present once the writer has committed). *)
+  Lemma commit_overlap_fails q :
+    Inv st -> ts_in_range e ->
+    (w_prev wr <> 0 -> exists i own, getp (d_ptrs st) i = Some own /\ p_start own = w_start wr) ->
+    In q (d_ptrs st) -> (w_prev wr <> 0 -> p_start q <> w_start wr) ->
+    overlaps_math (p_tr q) (mkTR (w_start wr) ce) ->
+    exists err, commit st w e k = (st, RErr err) /\ is_validation (RErr err) = true.
+  Proof.
+    intros (Hidx & Hpf & Hfo & Hfs & Hwr) He Hown Hq Hqn Hov. rewrite commit_unfold.
+    destruct (validate_commit_range wr ce sw) eqn:Ev; [simpl|exists EValidation; auto].
+    destruct (Hwr w wr Hw) as [Hws Hwe].
+    assert (Hce : ts_in_range ce).
+    { unfold resolve_commit_end in Hres. destruct (d_cap st <=? w_fsize wr)%N; [inversion Hres; subst; assumption|].
+      destruct (w_preset wr); inversion Hres; subst; assumption. }
+    assert (Hlt : w_start wr < ce).
+    { unfold validate_commit_range in Ev.
+      destruct (negb (ts_is_zero (w_prev wr)) && negb (sw && w_preset wr) && (ce <? w_prev wr)); [discriminate|].
+      destruct (Z.ltb_spec (w_start wr) ce); [assumption|discriminate]. }
+    set (ptr := mkPtr (mkTR (w_start wr) ce) (w_file wr) (u32 (f_off f)) (u32 (f_len f))).
+    assert (Hpwf : ptr_wf ptr) by (split; [split; assumption|assumption]).
+    destruct (get_file_Some _ _ _ Hf) as [Hk _].
+    unfold ts_is_zero, ts_min. destruct (Z.eqb_spec (w_prev wr) 0) as [Hz|Hnz].
+    - rewrite (insert_conflict (d_ptrs st) ptr q Hidx Hpwf Hk Hq Hov). exists EConflict. auto.
+    - destruct (Hown Hnz) as (i & own & Hgi & Hso).
+      rewrite (update_conflict (d_ptrs st) ptr i own q Hidx Hpwf Hgi Hso Hq (Hqn Hnz) Hov).
+      exists EConflict. auto.
+  Qed.
+End commit_facts.
+
+(* The pinned upstream validateCommitRange accepted a backwards commit on every file
+   switch (finding F18); the repaired one refuses it unless the writer has a preset end. *)
+Lemma upstream_backwards_refuted :
+  exists wr e, w_prev wr <> 0 /\ e < w_prev wr /\ w_preset wr = false /\
+    validate_commit_range_upstream wr e true = true /\ validate_commit_range wr e true = false.
+Proof.
+  exists (mkW 12 ts_max false 100 1 10 false), 40. repeat split; try discriminate; reflexivity.
+Qed.
+
+(* Without WriterConfig.Validate (upstream returned nil, finding F19) the overlap check
+   alone lets a writer open at the start of an existing domain when its preset end is
+   inverted. *)
+Lemma upstream_inverted_end_refuted :
+  exists p s e, contains_stamp (p_tr p) s = true /\ cfg_validate_upstream s e = true /\
+    idx_overlap [p] (cfg_domain s e) = false /\ cfg_validate s e = false.
+Proof.
+  exists (mkPtr (mkTR 5 40) 1 0 3), 5, 1. repeat split; vm_compute; reflexivity.
+Qed.
+
+(* ------------------------------------------------------------------ committed bytes never change *)
+Lemma content_le fs fs' p : files_le fs fs' -> ptr_in_files fs p -> content fs' p = content fs p.
+Proof.
+  intros Hle (f & Hf & Hb & _). destruct (Hle _ _ Hf) as (f' & Hf' & [sfx Hs]).
+  unfold content. rewrite Hf, Hf', Hs. unfold f_size in Hb.
+  rewrite skipn_app, firstn_app, skipn_length.
+  replace (N.to_nat (p_size p) - (length (f_data f) - N.to_nat (p_off p)))%nat with 0%nat by lia.
+  simpl. rewrite app_nil_r. reflexivity.
+Qed.
+
+Lemma readable_le st st' :
+  Inv st -> d_ptrs st' = d_ptrs st -> files_le (d_files st) (d_files st') -> readable st' = readable st.
+Proof.
+  intros (Hok & Hpf & _) Hp Hle. unfold readable. rewrite Hp. apply map_ext_in.
+  intros p Hp'. rewrite (content_le _ _ p Hle); [reflexivity|].
+  rewrite Forall_forall in Hpf. apply Hpf. rewrite <- (iter_all_complete _ Hok). assumption.
+Qed.
+
+(* Opening, writing (uncommitted bytes) and closing never change what can be read. *)
+Lemma noncommit_preserves_readable st o :
+  Inv st -> match o with Open _ _ _ _ | Write _ _ | Close _ => True | _ => False end ->
+  d_ptrs (fst (step st o)) = d_ptrs st /\ readable (fst (step st o)) = readable st.
+Proof.
+  intros HI Ho. pose proof HI as (Hidx & Hpf & Hfo & Hfs & Hw).
+  assert (Hgoal : d_ptrs (fst (step st o)) = d_ptrs st /\ files_le (d_files st) (d_files (fst (step st o)))).
+  { destruct o as [w s e k|w d|w e k|w|a b]; try contradiction; simpl.
+    - unfold open_writer. destruct (d_writers st !! w); [split; [reflexivity|apply files_le_refl]|].
+      destruct (negb (cfg_validate s e)); [split; [reflexivity|apply files_le_refl]|].
+      destruct (idx_overlap _ _); [split; [reflexivity|apply files_le_refl]|].
+      destruct (acquire (d_nominal st) (d_files st) k) as [[k' size] fs'] eqn:Ea.
+      destruct (acquire_spec _ _ _ _ _ _ Ea Hfo Hfs) as (_ & _ & Hle). simpl. auto.
+    - unfold write. destruct (d_writers st !! w) as [wr|]; [|split; [reflexivity|apply files_le_refl]].
+      destruct (w_closed wr); [split; [reflexivity|apply files_le_refl]|].
+      destruct (get_file (d_files st) (w_file wr)) as [f|] eqn:Ef; [|split; [reflexivity|apply files_le_refl]].
+      simpl. split; [reflexivity|]. eapply files_le_set; eauto. exists d. reflexivity.
+    - unfold close_writer. destruct (d_writers st !! w) as [wr|]; [|split; [reflexivity|apply files_le_refl]].
+      destruct (w_closed wr); [split; [reflexivity|apply files_le_refl]|]. simpl.
+      destruct (release_spec (d_files st) (w_file wr) Hfo Hfs) as (_ & _ & Hle). auto. }
+  destruct Hgoal as [Hp Hle]. split; [assumption|]. apply readable_le; assumption.
 Qed.
